@@ -1188,5 +1188,5 @@ func c16IndexBounds(c *engine.Ctx, rule string) {
 			}}, "Index* result checked before it is used as a slice bound")
 		})
 	}
-	c.Floor(n, 3)
+	c.Floor(n, 2)
 }
